@@ -120,6 +120,14 @@ CATALOGUE = [
       note="first designation was the tape-name string; pdpy11 reports the directive (coarse position, reported "
            "to the lead as an observation); the statement is accepted as the culprit"),
     K("excess-hash-directive", "compile", "error", ".word ⟦#⟧1", "excess-hash"),
+    # a prefix operator under another prefix operator: the culprit is the INNER expression, several columns behind the outer one
+    K("complemented-immediate-too-wide", "compile", "error", "mov #⟦~200000⟧, r0", "value-out-of-bounds"),
+    K("lazy-negated-immediate-too-small", "link", "error", "mov #  ⟦-nb{u}⟧, r1", "value-out-of-bounds", post=("nb{u} = 200000",)),
+    K("register-under-minus", "compile", "error", ".word 1, - ⟦%3⟧", "unexpected-value"),
+    K("immediate-under-deferred-minus", "compile", "error", "mov @ -  ⟦#5⟧, r0", "unexpected-value"),
+    # a string of several chunks: the culprit is the chunk that holds the bad character, not the first one
+    K("rad50-invalid-character-later-chunk", "compile", "error", ".rad50 /ABC/ ⟦/d#f/⟧", "invalid-character"),
+    K("rad50-invalid-character-after-code", "compile", "error", ".rad50 /AB/<1>  ⟦/x~y/⟧", "invalid-character"),
     # ------------------------------------------------------------------ genuinely lazy (link-time) faults: the value
     # is only known after a LATER statement, so the report is issued long after the statement was compiled
     K("lazy-byte-too-wide", "link", "error", ".byte ⟦big{u}⟧", "value-out-of-bounds", post=("big{u} = 400",)),
